@@ -229,16 +229,16 @@ def handle (entry : String) (j : Json) : Except String Json := do
     let pts ← getList getPoint (← field j "pairs")
     let ks ← getList getRat (fieldD j "ks" (Json.arr []))
     let xs := pts.map (·.1)
-    let fvals := exceptJ rats ((xs ++ ks).mapM (lagrangeFunc pts))
-    let lp := lagrangePoly pts
-    let pj := match lp with
+    let fv (fixed : Bool) := exceptJ rats ((xs ++ ks).mapM (fun k => lagrangeFunc pts k fixed))
+    let pj (fixed : Bool) := match lagrangePoly pts fixed with
       | .ok p => Json.mkObj [("terms", polyJ (sortAsc p)), ("items", polyJ p),
           ("at", rats ((xs ++ ks).map fun v => call p v .auto))]
       | .error e => errJ e
     let s := if distinctX pts && !pts.isEmpty then
         Json.mkObj [("at_nodes", rats (sLagrangeAtNodes pts)), ("max_order", natToJson (pts.length - 1))]
       else Json.null
-    pure <| Json.mkObj [("model", Json.mkObj [("func", fvals), ("poly", pj)]), ("spec", s)]
+    pure <| Json.mkObj [("model", Json.mkObj [("func", fv false), ("poly", pj false)]),
+      ("model_fixed", Json.mkObj [("func", fv true), ("poly", pj true)]), ("spec", s)]
   | _ => throw s!"C07: unknown entry {entry}"
 
 end ALV.Driver.C07
